@@ -90,7 +90,7 @@ use crate::common::UnitSectionOffset;''')
     sk.module('write::unit::convert', '''use crate::common::UnitSectionOffset;
 use crate::fspec::*;
 use vstd::std_specs::hash::*;
-broadcast use {vstd::std_specs::hash::group_hash_axioms, crate::fspec::ax::axiom_uso_key};''')
+broadcast use {vstd::std_specs::hash::group_hash_axioms, crate::fspec::ax::axiom_uso_key, crate::fspec::lemma_push_contains_b};''')
     M = 'write::unit::convert'
 
     # R-MAP: hashbrown + fnv are dependencies outside the verified text; std's HashMap has a vstd model
@@ -403,10 +403,10 @@ pub broadcast proof fn lemma_push_contains_b(v: Seq<K>, x: K, k: K)
     for v, pat, kind in OP_REFS:
         n = ident(v)
         if kind == 'unit':
-            body = f'(op matches {pat} && h.in_bounds_spec(x)) ==> deps.contains(uso_unit(h, x))'
+            body = f'op matches {pat} ==> (h.in_bounds_spec(x) ==> deps.contains(uso_unit(h, x)))'
             tgt = f'(op matches {pat} && h.in_bounds_spec(x) && t == uso_unit(h, x))'
         elif kind == 'info':
-            body = f'(op matches {pat}) ==> deps.contains(UnitSectionOffset(x.0))'
+            body = f'op matches {pat} ==> deps.contains(UnitSectionOffset(x.0))'
             tgt = f'(op matches {pat} && t == UnitSectionOffset(x.0))'
         else:
             continue
@@ -423,7 +423,7 @@ pub open spec fn direct_target<R: Reader<Offset = usize>>(h: Hdr<R>, op: Op<R>, 
     {' || '.join(t for _, t in direct)}
 }}
 pub open spec fn cov1_EntryValue<R: Reader<Offset = usize>>(h: Hdr<R>, enc: Encoding, op: Op<R>, deps: Seq<K>) -> bool {{
-    (op matches Operation::EntryValue {{ expression: x }}) ==> covers_direct(h, expr_ops::<R>(x.rv(), enc), deps)
+    op matches Operation::EntryValue {{ expression: x }} ==> covers_direct(h, expr_ops::<R>(x.rv(), enc), deps)
 }}
 /// the operations of every nested DW_OP_entry_value expression are covered (one level; deeper levels follow from the callee contract of a recursive walk)
 pub open spec fn covers_EntryValue<R: Reader<Offset = usize>>(h: Hdr<R>, enc: Encoding, ops: Seq<Op<R>>, deps: Seq<K>) -> bool {{
@@ -515,7 +515,7 @@ use crate::vspec::RView;'''
     oi.insert_members('    pub closed spec fn ops(&self) -> Seq<Operation<R>> { expr_ops::<R>(self.input.rv(), self.encoding) }')
     oi.splice('next', ret='res', ensures=[
         'res matches Ok(Some(op)) ==> old(self).ops().len() > 0 && op == old(self).ops()[0] && final(self).ops() == old(self).ops().skip(1)',
-        '!(res matches Ok(Some(_))) ==> old(self).ops().len() == 0'])
+        '!(res matches Ok(Some(_))) ==> old(self).ops().len() == 0 && final(self).ops() == old(self).ops()'])
     sk.add('read::op', oi)
     sk.add('read::op', ex)
 
@@ -592,7 +592,7 @@ use crate::fspec::*;''')
     sk.add('read::dwarf', uri)
 
     # ---- write: Error, ConvertError, From<read::Error>
-    sk.mods['write']['uses'] += '\nuse core::result;\nuse crate::read;\npub use self::unit::*;'
+    sk.mods['write']['uses'] += '\nuse core::result;\nuse crate::read;\nuse crate::constants;\npub use self::unit::*;'
     sk.add('write', wm.item(r'^pub enum Error \{', label='Error').clean())
     sk.add('write', wm.item(r'^    pub enum ConvertError \{', label='ConvertError').clean())
     fr = wm.item(r'^    impl From<read::Error> for ConvertError', label='From<read::Error> for ConvertError').clean()
@@ -607,8 +607,7 @@ use crate::fspec::*;''')
     sk.mods[M]['uses'] += '''
 use crate::common::{DebugInfoOffset, LocationListsOffset, DebugLocListsIndex, Encoding};
 use crate::write::{ConvertError, ConvertResult};
-use crate::read::reader_clone;
-broadcast use crate::fspec::lemma_push_contains_b;'''
+use crate::read::reader_clone;'''
 
     sk.add(M, wu.item(r'^    struct FilterParent \{', within=CONVERT, label='FilterParent').clean())
     fu = wu.item(r"^    pub struct FilterUnit<'a, R: Reader<Offset = usize>>", within=CONVERT, label='FilterUnit(struct)')
@@ -629,11 +628,11 @@ def populate_filter_unit(ctx, sk, wu):
     imp.custom('R-CLONE', 'expression.clone()', 'read::Expression(reader_clone(&expression.0))')
     imp.clean()
     imp.own(['C19'])
-    H = 'self.read_unit.unit.header'
+    H = 'old(self).read_unit.unit.header'
     ENC = f'{H}.spec_encoding()'
     OD, FD = 'old(deps)@', 'final(deps)@'
     INFO = f'{H}.spec_section() == crate::common::SectionId::DebugInfo'
-    FRAME = [f'[C19:deps-extend] {OD}.is_prefix_of({FD})', 'final(self) == old(self)']
+    FRAME = [f'[C19:deps-extend] {OD}.is_prefix_of({FD})', '*final(self) == *old(self)']
     direct = [ident(v) for v, _, k in OP_REFS if k != 'nested']
 
     # ---- add_expression_refs: one clause (and one loop invariant) per reference-bearing Operation variant
@@ -653,6 +652,7 @@ def populate_filter_unit(ctx, sk, wu):
         else:
             inv.append(f'    forall|i: int| 0 <= i < ops0.len() - ops.ops().len() ==> cov1_{n}(h, {ENC}, #[trigger] ops0[i], deps@), // [C19:expr-ref-{v}]')
     inv.append(f'    forall|j: int| {OD}.len() <= j < deps@.len() ==> exists|i: int| 0 <= i < ops0.len() - ops.ops().len() && direct_target(h, #[trigger] ops0[i], #[trigger] deps@[j]), // [C19:expr-ref-only]')
+    inv.append('ensures ops.ops().len() == 0,')
     inv.append('decreases ops.ops().len(),')
     STEP = '''let ghost dprev = deps@; let ghost k0 = ops0.len() - ops.ops().len() - 1;
                 proof { assert(ops0.skip(k0)[0] == ops0[k0]); assert(op == ops0[k0]); assert(ops0.skip(k0).skip(1) =~= ops0.skip(k0 + 1)); }'''
@@ -666,7 +666,7 @@ def populate_filter_unit(ctx, sk, wu):
                 }''')
 
     # ---- add_location_refs
-    L = f'loclist_entries(self.read_unit.dwarf, self.read_unit.unit, offset)'
+    L = f'loclist_entries(old(self).read_unit.dwarf, old(self).read_unit.unit, offset)'
     imp.splice('add_location_refs', ret='res',
                ensures=[f'[C19:loclist-refs] res is Ok ==> covers_loclist({H}, {ENC}, {L}, {FD})'] + FRAME,
                loops={0: f'''invariant
@@ -686,20 +686,26 @@ def populate_filter_unit(ctx, sk, wu):
 
     # ---- add_attribute_refs: one clause per reference-bearing AttributeValue variant
     imp.splice('add_attribute_refs', ret='res', ensures=[
-        f'[C19:attr-ref-UnitRef] (value matches read::AttributeValue::UnitRef(x) && {H}.in_bounds_spec(x)) ==> {FD}.contains(uso_unit({H}, x))',
-        f'[C19:attr-ref-DebugInfoRef] (value matches read::AttributeValue::DebugInfoRef(x) && res is Ok) ==> {FD}.contains(UnitSectionOffset(x.0))',
-        f'[C19:attr-ref-DebugInfoRef] (value matches read::AttributeValue::DebugInfoRef(x) && {INFO}) ==> res is Ok',
-        f'[C19:attr-ref-Exprloc] (value matches read::AttributeValue::Exprloc(x) && res is Ok) ==> covers_expr::<R>({H}, {ENC}, x.0.rv(), {FD})',
-        f'[C19:attr-ref-LocationListsRef] (value matches read::AttributeValue::LocationListsRef(x) && res is Ok) ==> covers_loclist({H}, {ENC}, loclist_entries(self.read_unit.dwarf, self.read_unit.unit, x), {FD})',
-        f'[C19:attr-ref-DebugLocListsIndex] (value matches read::AttributeValue::DebugLocListsIndex(x) && res is Ok) ==> covers_loclist({H}, {ENC}, loclist_entries(self.read_unit.dwarf, self.read_unit.unit, loclists_offset_spec(self.read_unit.dwarf, self.read_unit.unit, x)), {FD})',
+        f'[C19:attr-ref-UnitRef] value matches read::AttributeValue::UnitRef(x) ==> ({H}.in_bounds_spec(x) ==> {FD}.contains(uso_unit({H}, x)))',
+        f'[C19:attr-ref-DebugInfoRef] value matches read::AttributeValue::DebugInfoRef(x) ==> res is Ok ==> {FD}.contains(UnitSectionOffset(x.0))',
+        f'[C19:attr-ref-DebugInfoRef] value is DebugInfoRef && {INFO} ==> res is Ok',
+        f'[C19:attr-ref-Exprloc] value matches read::AttributeValue::Exprloc(x) ==> res is Ok ==> covers_expr::<R>({H}, {ENC}, x.0.rv(), {FD})',
+        f'[C19:attr-ref-LocationListsRef] value matches read::AttributeValue::LocationListsRef(x) ==> res is Ok ==> covers_loclist({H}, {ENC}, loclist_entries(old(self).read_unit.dwarf, old(self).read_unit.unit, x), {FD})',
+        f'[C19:attr-ref-DebugLocListsIndex] value matches read::AttributeValue::DebugLocListsIndex(x) ==> res is Ok ==> covers_loclist({H}, {ENC}, loclist_entries(old(self).read_unit.dwarf, old(self).read_unit.unit, loclists_offset_spec(old(self).read_unit.dwarf, old(self).read_unit.unit, x)), {FD})',
         f'[C19:attr-ref-only] !(value is UnitRef || value is DebugInfoRef || value is Exprloc || value is LocationListsRef || value is DebugLocListsIndex) ==> {FD} == {OD} && res is Ok',
     ] + FRAME)
 
     # ---- require_entry
     imp.splice('require_entry',
-               requires=[f'[C19:require-in-bounds] old(self).read_unit.unit.header.in_bounds_spec(offset)'],
-               ensures=['[C19:require-entry] final(self).deps.req() == old(self).deps.req().push(uso_unit(old(self).read_unit.unit.header, offset))',
-                        '[C19:require-entry] final(self).deps.graph() == old(self).deps.graph()'], canary=True)
+               requires=['[C19:require-in-bounds] old(self).hdr().in_bounds_spec(offset)'],
+               ensures=['[C19:require-entry] final(self).dep_req() == old(self).dep_req().push(uso_unit(old(self).hdr(), offset))',
+                        '[C19:require-entry] final(self).dep_graph() == old(self).dep_graph()'], canary=True)
+    imp.insert_after("impl<'a, R: Reader<Offset = usize>> FilterUnit<'a, R> {", '''
+        // ghost accessors for the private dependency graph
+        pub closed spec fn dep_graph(&self) -> G { self.deps.graph() }
+        pub closed spec fn dep_req(&self) -> Seq<K> { self.deps.req() }
+        pub closed spec fn hdr(&self) -> Hdr<R> { self.read_unit.unit.header }
+''')
     sk.add(M, imp)
 
 
